@@ -105,6 +105,28 @@ pub struct BuiltInPrimitives {
 }
 
 impl BuiltInPrimitives {
+  /// Is this one of the builtin classes whose values are not instances. The methods
+  /// of these classes are natives that expect a receiver of the matching object kind
+  pub fn is_value_class(&self, class: ObjRef<Class>) -> bool {
+    [
+      self.nil,
+      self.bool,
+      self.channel,
+      self.class,
+      self.fun,
+      self.number,
+      self.string,
+      self.list,
+      self.tuple,
+      self.map,
+      self.iter,
+      self.closure,
+      self.method,
+      self.native_fun,
+    ]
+    .contains(&class)
+  }
+
   pub fn for_value(&self, value: Value) -> ObjRef<Class> {
     match value.kind() {
       ValueKind::Bool => self.bool,
